@@ -155,6 +155,11 @@ func (p *Path) callValue(caller *frame, fv Value, args []Value, site ssa.Instruc
 }
 
 func (p *Path) callFunction(caller *frame, fn *ssa.Function, args []Value, env []Value, site ssa.Instruction) Value {
+	if len(p.w.eng.redirects) > 0 {
+		if to, ok := p.w.eng.redirects[fn.String()]; ok {
+			fn = to
+		}
+	}
 	if in, ok := intrinsics[fn.String()]; ok {
 		return in(p, caller, fn, args)
 	}
